@@ -194,6 +194,41 @@ class Snapshot:
         return None
 
 
+MSG_CODE = {
+    "input matrix must be square": "not-square",
+    "P must be a square matrix": "not-square",
+    "P must be nonnegative": "negative",
+    "The rows of P must sum to 1": "row-sums",
+    "node_labels must be an array_like of length n": "labels-length",
+    "state_values must be an array_like of length n": "labels-length",
+    "data in node_labels must be homogeneous in type": "labels-object",
+    "data in state_values must be homogeneous in type": "labels-object",
+}
+
+
+def err_code(e):
+    return "ERR:%s:%s" % (type(e).__name__, MSG_CODE.get(str(e), "?" + str(e)[:60]))
+
+
+def label_summary(lab):
+    """what the setters look at: ndim, length of the first axis, object dtype (the model's LabelArg)"""
+    if lab is None:
+        return "none", None
+    a = np.asarray(lab)
+    return "%d,%d,%d" % (a.ndim, a.shape[0] if a.ndim >= 1 else 0, int(a.dtype == object)), a
+
+
+def expected_label_error(n, lab):
+    if lab is None:
+        return None
+    a = np.asarray(lab)
+    if a.ndim < 1 or a.shape[0] != n:
+        return "labels-length"
+    if a.dtype == object:
+        return "labels-object"
+    return None
+
+
 def adj_str(rows):
     return ";".join(",".join(str(v) for v in r) if r else "-" for r in rows)
 
@@ -859,6 +894,33 @@ def run(ctx):
                 continue
             if planned is not None and planned[0] == "scribble":
                 continue
+            if (planned is None and rng.random() < 0.08) or (planned is not None and planned[0] == "badset"):
+                # an assignment the setter must reject: nothing may change
+                if planned is not None:
+                    bad = planned[1]
+                else:
+                    bad = rng.choice([list(range(n + 1)), list(range(n + 2)), 7, [[1, 2]] * (n + 1),
+                                      np.array([None] * n, dtype=object), np.array([None] * (n + 3), dtype=object)]
+                                     + ([list(range(n - 1))] if n >= 1 else []))
+                summ, arr_ = label_summary(bad)
+                want_code = expected_label_error(n, bad)
+                replay["steps"].append(["badset", bad.tolist() if isinstance(bad, np.ndarray) else bad])
+                try:
+                    if kind == "dg":
+                        obj.node_labels = bad
+                    else:
+                        obj.state_values = bad
+                    got_bad = "accepted"
+                except ValueError as e_:
+                    got_bad = err_code(e_)
+                if want_code is None or got_bad != "ERR:ValueError:" + want_code:
+                    fail(kind + ":hist-bad-assignment", "assigning labels %r to an object with n=%d gave %s, the setter's rule gives %s"
+                         % (bad, n, got_bad, want_code))
+                outs.append(got_bad)
+                steps.append("B:" + summ)
+                ctx.count("hist:rejected-assignment:" + str(want_code))
+                after_step([], "a rejected label assignment")
+                continue
             if (planned is None and r < 0.3) or (planned is not None and planned[0] == "set"):
                 if planned is not None:
                     L = planned[1]
@@ -1237,6 +1299,129 @@ def run(ctx):
                 forms_case(A0)
         for _ in range(ctx.n(1200, 8000)):
             forms_case(small_graph() if rng.random() < 0.8 else [[rng.randint(0, 1) for _ in range(3)] for _ in range(3)])
+
+    # ---- constructors: argument validation (error branches and their order) -----------------------------------------
+    from fractions import Fraction as Fr
+
+    def lab_arg(n):
+        """a labels argument: mostly valid, sometimes of the wrong length / dimension / dtype"""
+        k = rng.randrange(9)
+        if k <= 1:
+            return None
+        if k == 2:
+            return rng.sample(range(-20, 40), n)
+        if k == 3:
+            return np.arange(2 * n).reshape(n, 2)                 # 2-d with the right first axis: accepted
+        if k == 4:
+            return list(range(n + rng.choice([-1, 1, 2]))) if n > 1 else [1, 2]
+        if k == 5:
+            return 5                                              # 0-d
+        if k == 6:
+            return np.array([None] * n, dtype=object)
+        if k == 7:
+            return np.array([None] * (n + 1), dtype=object)       # wrong length AND object: the length test is first
+        return np.arange(3 * (n + 1)).reshape(n + 1, 3)
+
+    def init_case():
+        kind = rng.choice(["dg", "mc"])
+        if kind == "dg":
+            shp = rng.choice([(1, 1), (2, 2), (3, 3), (4, 4), (2, 3), (3, 2), (1, 4), (3,), (1,), (4, 1)])
+            M = np.ones(shp, dtype=rng.choice([bool, int, float]))
+            n_eff = shp[-1]
+            lab = lab_arg(n_eff)
+            summ, _ = label_summary(lab)
+            arg = M if rng.random() < 0.6 or len(shp) == 1 else sparse.csr_matrix(M)
+            if len(shp) == 1:
+                want = None if shp[0] == 1 else "not-square"
+            else:
+                want = None if shp[0] == shp[1] else "not-square"
+            if want is None:
+                want = expected_label_error(n_eff, lab)
+            try:
+                g = DiGraph(arg, node_labels=lab)
+                got = "ok n=%d" % g.n
+            except ValueError as e:
+                got = err_code(e)
+            line = "C03 init kind=dg shape=%s lab=%s" % (",".join(map(str, shp)), summ)
+            wants = "ok n=%d" % n_eff if want is None else "ERR:ValueError:" + want
+            rp = {"op": "init", "kind": "dg", "shape": list(shp), "labels": repr(lab)}
+        else:
+            n = rng.randint(1, 4)
+            shape_kind = rng.choice(["square"] * 6 + ["wide", "tall", "1d", "3d"])
+            if shape_kind == "square":
+                rows, cols = n, n
+            elif shape_kind == "wide":
+                rows, cols = n, n + 1
+            elif shape_kind == "tall":
+                rows, cols = n + 1, n
+            else:
+                rows, cols = 1, n
+            # dyadic rows summing to one exactly
+            P = []
+            for _ in range(rows):
+                w = [rng.randint(0, 3) for _ in range(cols)]
+                if sum(w) == 0:
+                    w[rng.randrange(cols)] = 1
+                tot = 1
+                while tot < sum(w):
+                    tot *= 2
+                w[max(range(cols), key=lambda j: w[j])] += tot - sum(w)
+                P.append([Fr(x, tot) for x in w])
+            pert = rng.choice(["none"] * 4 + ["negative", "sum", "both", "sum-small"])
+            if pert in ("negative", "both"):
+                i = rng.randrange(rows); j = rng.randrange(cols)
+                dlt = Fr(1, 2 ** rng.choice([1, 4, 20]))
+                P[i][j] -= (P[i][j] + dlt)                   # entry becomes -dlt
+                if pert == "negative":                      # keep the row sum at one
+                    j2 = (j + 1) % cols if cols > 1 else j
+                    if j2 != j:
+                        P[i][j2] += 1 - sum(P[i])
+            if pert in ("sum", "both"):
+                i = rng.randrange(rows); j = rng.randrange(cols)
+                P[i][j] += rng.choice([1, -1]) * Fr(1, 2 ** rng.choice([16, 10, 3])) if P[i][j] > Fr(1, 4) or True else 0
+            if pert == "sum-small":                          # inside the allclose tolerance
+                i = rng.randrange(rows); j = rng.randrange(cols)
+                P[i][j] += Fr(1, 2 ** rng.choice([17, 20, 30]))
+            Pf = np.array([[float(x) for x in r] for r in P])
+            if shape_kind == "1d":
+                Pf = Pf[0]; shp = (cols,)
+            elif shape_kind == "3d":
+                Pf = np.stack([Pf, Pf]); shp = Pf.shape
+            else:
+                shp = (rows, cols)
+            lab = lab_arg(shp[0])
+            summ, _ = label_summary(lab)
+            use_sparse = len(shp) == 2 and rng.random() < 0.4
+            arg = sparse.csr_matrix(Pf) if use_sparse else (Pf if rng.random() < 0.7 else Pf.tolist())
+            # the definition, exactly
+            if len(shp) != 2 or shp[0] != shp[1]:
+                want = "not-square"
+            elif any(x < 0 for r in P for x in r):
+                want = "negative"
+            elif any(abs(sum(r) - 1) > Fr(10001, 10 ** 9) for r in P):
+                want = "row-sums"
+            else:
+                want = expected_label_error(shp[0], lab)
+            try:
+                mc = MarkovChain(arg, state_values=lab)
+                got = "ok n=%d" % mc.n
+            except ValueError as e:
+                got = err_code(e)
+            flat = Pf.reshape(-1, Pf.shape[-1]) if Pf.ndim != 2 else Pf
+            from .common import fxm
+            line = "C03 init kind=mc shape=%s P=%s lab=%s" % (",".join(map(str, shp)), fxm(flat.tolist()), summ)
+            wants = "ok n=%d" % shp[0] if want is None else "ERR:ValueError:" + want
+            rp = {"op": "init", "kind": "mc", "shape": list(shp), "P": [[str(x) for x in r] for r in P], "sparse": use_sparse,
+                  "labels": repr(lab)}
+            ctx.count("init:mc-perturbation-" + pert)
+        if got != wants:
+            ctx.spec_fail("init:" + kind, "constructor outcome %s, the documented checks in their order give %s" % (got, wants), rp)
+        cases.append(Case(line, got, nontrivial=True, tag="init-" + kind))
+        ctx.count("init:%s:%s" % (kind, wants if wants.startswith("ERR") else "ok"))
+
+    if r is None:
+        for _ in range(ctx.n(600, 4000)):
+            init_case()
 
     seen_last = {}
     if r is not None:      # --replay of a recorded history
